@@ -21,12 +21,16 @@ LEVEL = "model_checking"
 
 def run(ctx):
     thorough = ctx.tier == "thorough"
-    jobs = [("C16_sim", "simulate", 3000 if thorough else 600, 8 if thorough else 6)]
+    # C16_g3: GroupBy over three plain child Rows (deep iterator paths: wrap-around of the
+    # middle field, previous rows absent from a shard) over sparse rows, paged by previous/offset
+    jobs = [("C16_sim", "simulate", 3000 if thorough else 450, 8 if thorough else 5),
+            ("C16_g3", "simulate", 1200 if thorough else 200, 4 if thorough else 3)]
     res = qcommon.generate_parallel(ctx, jobs)
-    beh = qcommon.merge(ctx, res["C16_sim"], "C16_sim")
-    env = qcommon.cfg_env("C16_sim")
-    env["VERIF_EVERY3"] = 4
-    ctx.drive("bind/queryb", "TestC16", beh=beh, env=env, label="C16/C16_sim", timeout=2400)
+    for cfg, _, _, _ in jobs:
+        beh = qcommon.merge(ctx, res[cfg], cfg)
+        env = qcommon.cfg_env(cfg)
+        env["VERIF_EVERY3"] = 4
+        ctx.drive("bind/queryb", "TestC16", beh=beh, env=env, label="C16/" + cfg, timeout=2400)
     if thorough:
         m = ctx.modelcheck("Query", "C16_mc", timeout=2400)
         if m.violation:
